@@ -591,6 +591,38 @@ example : IsX (Affine.Point.some 2 4 P0_nonsingular + Affine.Point.some 2 4 P0_n
     (xDBL (⟨6, 3⟩ : EcPoint ℚ) ⟨3, 2⟩).x (xDBL (⟨6, 3⟩ : EcPoint ℚ) ⟨3, 2⟩).z :=
   xDBL_correct (by norm_num) 3 2 (by norm_num) (by norm_num) _ ⟨6, 3⟩ ⟨by norm_num, by norm_num⟩
 
+/-- `Q₀ = 2·P₀ = (9/64, 213/512)` on the same curve -/
+theorem Q0_nonsingular : (mont (3 / 2 : ℚ)).Nonsingular (9 / 64) (213 / 512) := by
+  rw [Affine.nonsingular_iff, Affine.equation_iff]
+  simp only [mont]
+  norm_num
+
+theorem xNonDeg_some {a x y : F} (h : (mont a).Nonsingular x y) (hx : x ≠ 0) : XNonDeg (Affine.Point.some x y h) :=
+  fun _ _ hXZ => ⟨by rw [hXZ.2]; exact mul_ne_zero hx hXZ.1, hXZ.1⟩
+
+/-- non-vacuity of the hypotheses of `xDBLMUL_correct` / `xDBLMUL_generated_correct`: `P = P₀`, `Q = Q₀`: all four of
+`P, Q, P + Q, P - Q` have `x ∉ {0, ∞}` -/
+example : XNonDeg (Affine.Point.some 2 4 P0_nonsingular) ∧ XNonDeg (Affine.Point.some (9 / 64) (213 / 512) Q0_nonsingular) ∧
+    XNonDeg (Affine.Point.some 2 4 P0_nonsingular + Affine.Point.some (9 / 64) (213 / 512) Q0_nonsingular) ∧
+    XNonDeg (Affine.Point.some 2 4 P0_nonsingular - Affine.Point.some (9 / 64) (213 / 512) Q0_nonsingular) := by
+  refine ⟨xNonDeg_some _ (by norm_num), xNonDeg_some _ (by norm_num), ?_, ?_⟩
+  · obtain ⟨x3, y3, h3, hs, hx⟩ := add_some_ne P0_nonsingular Q0_nonsingular (by norm_num)
+    rw [hs]
+    apply xNonDeg_some
+    rw [hx]; norm_num
+  · have hn : (mont (3 / 2 : ℚ)).Nonsingular (9 / 64) (-(213 / 512)) := by
+      have := (Affine.nonsingular_neg (W' := mont (3 / 2 : ℚ)) (9 / 64) (213 / 512)).mpr Q0_nonsingular
+      rwa [mont_negY] at this
+    have e : Affine.Point.some 2 4 P0_nonsingular - Affine.Point.some (9 / 64) (213 / 512) Q0_nonsingular
+        = Affine.Point.some 2 4 P0_nonsingular + Affine.Point.some (9 / 64) (-(213 / 512)) hn := by
+      rw [sub_eq_add_neg, Affine.Point.neg_some]
+      congr 1
+      simp only [mont_negY]
+    obtain ⟨x3, y3, h3, hs, hx⟩ := add_some_ne P0_nonsingular hn (by norm_num)
+    rw [e, hs]
+    apply xNonDeg_some
+    rw [hx]; norm_num
+
 /-- the full statement of `xADD` without the hypothesis on the difference is false: `P = Q = P₀`, difference `∞`
 represented by `(1 : 0)`: the formula returns `X = 0` although `2P₀ ≠ (0,0)`-class would need `X = x(2P₀)·Z`. -/
 theorem xADD_degenerate_witness : (xADD (⟨2, 1⟩ : EcPoint ℚ) ⟨2, 1⟩ ⟨1, 0⟩).x = 0 ∧
